@@ -6,17 +6,18 @@
 set -u
 P=$1; shift
 V=/verif
-rsync -a --delete --exclude target --exclude .git /repo/ /tmp/repo-m/
+I=${MUT_INST:-}     # instance id: several mutation runs may go on in parallel (repo-m$I, harness-M$I, *-M$I)
+rsync -a --delete --exclude target --exclude .git /repo/ /tmp/repo-m$I/
 if [[ "$P" == -R:* ]]; then
-  git -C /repo show "${P#-R:}" | (cd /tmp/repo-m && patch -R -p1 -s) || { echo "MUT: reverse patch failed"; exit 2; }
+  git -C /repo show "${P#-R:}" | (cd /tmp/repo-m$I && patch -R -p1 -s) || { echo "MUT: reverse patch failed"; exit 2; }
 else
-  (cd /tmp/repo-m && patch -p1 -s < "$P") || { echo "MUT: patch failed"; exit 2; }
+  (cd /tmp/repo-m$I && patch -p1 -s < "$P") || { echo "MUT: patch failed"; exit 2; }
 fi
-mkdir -p $V/harness-M/src $V/harness-M/.cargo
-if [ ! -d $V/harness-M/target ]; then cp -a $V/harness/target $V/harness-M/target; fi
-rsync -a --delete $V/harness/src/ $V/harness-M/src/
-cp $V/harness/Cargo.lock $V/harness-M/; cp $V/harness/.cargo/config.toml $V/harness-M/.cargo/
-sed 's#path = "/repo"#path = "/tmp/repo-m"#' $V/harness/Cargo.toml > $V/harness-M/Cargo.toml
+mkdir -p $V/harness-M$I/src $V/harness-M$I/.cargo
+if [ ! -d $V/harness-M$I/target ]; then cp -a $V/harness/target $V/harness-M$I/target; fi
+rsync -a --delete $V/harness/src/ $V/harness-M$I/src/
+cp $V/harness/Cargo.lock $V/harness-M$I/; cp $V/harness/.cargo/config.toml $V/harness-M$I/.cargo/
+sed 's#path = "/repo"#path = "/tmp/repo-m'$I'"#' $V/harness/Cargo.toml > $V/harness-M$I/Cargo.toml
 for c in "$@"; do
-  (cd $V && VERIF_HARNESS_DIR=$V/harness-M VERIF_OUT_SUFFIX=-M VERIF_REPO_DIR=/tmp/repo-m ./check $c ${TIER:+--tier $TIER} > /tmp/mut-$c.log 2>&1; echo "MUT $c rc=$?"; grep -E "^(VIOLATION|KNOWN-FINDING|TOOL-ERROR)" /tmp/mut-$c.log | cut -c1-220)
+  (cd $V && VERIF_HARNESS_DIR=$V/harness-M$I VERIF_OUT_SUFFIX=-M$I VERIF_REPO_DIR=/tmp/repo-m$I ./check $c ${TIER:+--tier $TIER} > /tmp/mut$I-$c.log 2>&1; echo "MUT $c rc=$?"; grep -E "^(VIOLATION|KNOWN-FINDING|TOOL-ERROR)" /tmp/mut$I-$c.log | cut -c1-220)
 done
